@@ -596,6 +596,18 @@ Section Text.
     apply spell_all_strip. exact E.
   Qed.
 
+  (* the same for ANY spelling of the tokens (every number spelling, every string spelling with either quote and
+     any of the supported escapes, of Lex/LexProofs.v) and any white space satisfying `layoutx_ok`: the text
+     parses like the token sequence it spells *)
+  Theorem text_items : forall g o items trail, Render.layoutx_ok uni_letter uni_digit uni_space items trail = true ->
+    erase_result (parse_text g o (layoutx items trail)) =
+    parse g o (map (fun it => xtoken (snd it)) items ++ [mkTok noloc TkEOF ""%string]).
+  Proof.
+    intros g o items trail H. unfold Render.parse_text. rewrite (lex_text uni_letter uni_digit uni_space _ _ H).
+    rewrite <- parse_strip. f_equal.
+    unfold strip at 1. rewrite map_app. fold (strip (expectedx (1, 0) items)). rewrite strip_expectedx. reflexivity.
+  Qed.
+
   Lemma layout_good_lexable : forall L toks, layout_good L toks = true -> lexable toks = true.
   Proof.
     intros L toks H. unfold Render.layout_good, Render.lexable in *. destruct (pre_spell_all toks); [reflexivity|discriminate].
@@ -1184,6 +1196,44 @@ Section Final.
     apply (redundant_parentheses_text uni_letter uni_digit uni_space g o fmt_int fmt_float G c1 c2 t L1 L2 W1 W2); apply white_good; assumption.
   Qed.
 End Final.
+
+(* ---- layouts that are white for EVERY token list: the same non-empty white-space run that starts with
+   U+0020 between all tokens (nothing in front of the first token), one space inside `not in` *)
+Lemma gaps_ok_uniform : forall ws dq toks i, forallb ascii_ws ws = true -> ws <> [] ->
+  gaps_ok (uniform_layout ws dq) i toks = true.
+Proof.
+  intros ws dq. induction toks as [|t r IH]; intros i Hws Hne; [reflexivity|].
+  cbn [gaps_ok]. rewrite (IH (S i) Hws Hne), andb_true_r. destruct i as [|i]; cbn [uniform_layout gap]; [reflexivity|].
+  rewrite Hws. destruct ws; [congruence|]. cbn [Nat.eqb is_nil negb orb]. rewrite orb_true_r. reflexivity.
+Qed.
+
+Lemma notin_spaced_uniform : forall ws dq toks i, hd_okb (fun c => c =? 32) ws = true ->
+  notin_spaced (uniform_layout ws dq) i toks = true.
+Proof.
+  intros ws dq. induction toks as [|t r IH]; intros i H; [reflexivity|].
+  cbn [notin_spaced]. rewrite (IH (S i) H), andb_true_r. destruct (is_op_tok "not in" t); [|reflexivity].
+  cbn [uniform_layout inner gap]. rewrite H. reflexivity.
+Qed.
+
+Theorem white_uniform : forall ws dq toks, forallb ascii_ws ws = true -> ws <> [] ->
+  hd_okb (fun c => c =? 32) ws = true -> white (uniform_layout ws dq) toks = true.
+Proof.
+  intros ws dq toks H1 H2 H3. unfold white. rewrite gaps_ok_uniform, notin_spaced_uniform by assumption. reflexivity.
+Qed.
+
+Theorem text_roundtrip_uniform : forall (uni_letter uni_digit uni_space : Z -> bool) (o : oracles) (fmt_int : Z -> string)
+    (fmt_float : float -> string) (c : poracle) (t : expr) (ws : list Z) (dq : bool),
+  printable gen_grammar fmt_int fmt_float o c t ->
+  tree_textable uni_letter uni_digit uni_space fmt_int fmt_float t = true ->
+  forallb ascii_ws ws = true -> ws <> [] -> hd_okb (fun c => c =? 32) ws = true ->
+  exists t', parse_text uni_letter uni_digit uni_space gen_grammar o
+               (render uni_letter uni_digit uni_space (uniform_layout ws dq) (print_any gen_grammar fmt_int fmt_float c t)) = ROk t' /\
+             erase_loc t' = erase_loc t.
+Proof.
+  intros ul ud us o fi ff c t ws dq W HT H1 H2 H3.
+  apply (text_roundtrip_tree ul ud us gen_grammar o fi ff gen_grammar_wf c t _ W HT).
+  apply white_uniform; assumption.
+Qed.
 
 (* ---- what is NOT true of the pinned lexer (known finding C11-notin-spacing).
    The unrestricted statement: ANY non-empty white-space run between the two words of `not in` and after it
